@@ -197,6 +197,41 @@ func (w *World) resolveRenamedAnchors() {
 			}
 		}
 	}
+	// second chance: a free function that became a method of its first parameter's type (or the reverse) keeps its
+	// flattened signature (receiver first); argument and parameter positions in SSA are the same for both forms
+	flat := func(fp string) string {
+		parts := strings.SplitN(fp, "|", 4)
+		if len(parts) != 4 {
+			return fp
+		}
+		ps := strings.TrimSuffix(strings.TrimPrefix(parts[2], "("), ")")
+		variadic := ""
+		if strings.HasSuffix(parts[2], "...") {
+			ps = strings.TrimSuffix(strings.TrimPrefix(strings.TrimSuffix(parts[2], "..."), "("), ")")
+			variadic = "..."
+		}
+		if parts[1] != "" {
+			if ps == "" {
+				ps = parts[1]
+			} else {
+				ps = parts[1] + "," + ps
+			}
+		}
+		return parts[0] + "|(" + ps + ")" + variadic + "|" + parts[3]
+	}
+	for _, k := range missing {
+		if len(cands[k]) > 0 {
+			continue
+		}
+		for _, fn := range fresh {
+			if claims[fn] == 0 && flat(w.fingerprint(fn)) == flat(anchorSig[k]) && w.fingerprint(fn) != anchorSig[k] {
+				cands[k] = append(cands[k], fn)
+			}
+		}
+		for _, fn := range cands[k] {
+			claims[fn]++
+		}
+	}
 	for _, k := range missing {
 		if len(cands[k]) == 1 && claims[cands[k][0]] == 1 {
 			w.alias[cands[k][0]] = k
